@@ -1,6 +1,7 @@
 package rules
 
 import (
+	"go/types"
 	"go/token"
 	"strings"
 
@@ -42,6 +43,7 @@ func checkC08(c *km.Ctx) {
 	r.Rule("R-C08-2", "IsAdminUserAndU2F = IsAdminUser ∧ U2F bit; IsAdminUser returns a cached verdict only while valid and never refreshes the timestamp on a hit; cache lifetime constant <= 5 min; isValid is now-ts < max; _IsAdminUser returns true only from name/group matches", 5)
 	r.Rule("R-C08-3", "GetUsers (listing) is reachable only under the administrator fact", 1)
 	r.Rule("R-C08-4", "automation certificates are minted only under isAutomationAdmin(authUser) and only for identities that passed isAutomationUser", 1)
+	checkConfigKeys(c, "R-C08-2", "who is an administrator", "baseConfig.AdminUsers", "baseConfig.AdminGroups", "baseConfig.AutomationAdmins", "baseConfig.AutomationUsers", "baseConfig.AutomationUserGroups")
 
 	checkAuth := c.MustFunc("R-C08-1", "cmd/keymasterd", "(*RuntimeState).checkAuth")
 	checkUserPassword := c.MustFunc("R-C08-1", "cmd/keymasterd", "checkUserPassword")
@@ -458,6 +460,21 @@ func checkAdminPredicates(c *km.Ctx, s *km.Sem) {
 					return
 				}
 				nKey++
+				if mu, isMU := in.(*ssa.MapUpdate); isMU {
+					// what is stored is the verdict handed in (on every path): an entry that keeps an earlier
+					// verdict while its time stamp is refreshed serves a demoted administrator for ever
+					sy := km.SymOf(mu.Value)
+					okV, got := false, "not a record built from the arguments"
+					if sy != nil && sy.Op == "struct" {
+						if f, has := sy.Fields["IsAdmin"]; has {
+							got = f.String()
+							if p, isP := f.Val.(*ssa.Parameter); f.Op == "val" && isP && p.Parent() == fn && types.Identical(p.Type().Underlying(), types.Typ[types.Bool]) {
+								okV = true
+							}
+						}
+					}
+					r.Add("R-C08-2", km.FuncName(fn), "admin cache stores the verdict given", posOf(c, in), "the stored entry's IsAdmin is the verdict parameter on every path", clipS(got, 120), okV)
+				}
 				ok := keyIsGivenName(fn, key, 0)
 				r.Add("R-C08-2", km.FuncName(fn), "admin cache key", posOf(c, in), "the entry is stored and looked up under the user name exactly as the caller gave it", km.ValStr(key), ok)
 			})
